@@ -2,8 +2,16 @@
    Statements only; proofs are in Proofs/ReorderProofs.v (transpose_cell: Model/Table.v).
    All theorems quantify over every table (any size), every order / renaming / other table. *)
 From Coq Require Import List Arith ZArith Bool Permutation.
-From BiomV Require Import Base.Tree Base.ListUtil Base.Matrix Model.Table Model.Reorder Proofs.ReorderProofs.
+From BiomV Require Import Base.Tree Base.ListUtil Base.Matrix Model.Table Model.Orient Model.Reorder Proofs.ReorderProofs.
 Import ListNotations.
+
+(* Metadata: every new table is built by the constructor, which normalises metadata ([ctor_md],
+   Model/Orient.v: all entries None / empty dict -> no metadata; otherwise None entries -> empty dicts).
+   [md_view a t x] is the metadata of an id as a user sees it, with None and the empty dict
+   identified. [normal t] says the metadata of t is constructor-normal (ctor_md md = md); every table
+   the library can produce is (the constructor, and since repair 16e406b1 also _cast_metadata and
+   filter, normalise), and the operations below preserve it ([*_keeps_normal]), so it is an
+   invariant of reachable states, not an assumption about the caller. *)
 
 (* ---- sort_order ---- *)
 (* For a permutation of the axis: the call succeeds, the resulting order is exactly the requested
@@ -14,19 +22,26 @@ Theorem sort_order_spec : forall order a t,
   exists t', sort_order order a t = ROk t' /\
     ids a t' = order /\
     (forall o s, cell t' o s = cell t o s) /\
-    (forall x, md_of a t' x = md_of a t x) /\
-    ids (other a) t' = ids (other a) t /\ mds (other a) t' = mds (other a) t /\
-    ttype t' = ttype t /\ wf t'.
+    (forall b x, md_view b t' x = md_view b t x) /\
+    ids (other a) t' = ids (other a) t /\ mds (other a) t' = ctor_md (mds (other a) t) /\
+    ttype t' = ttype t /\ normal t' /\ wf t'.
 Proof. exact sort_order_perm. Qed.
 Print Assumptions sort_order_spec.
 
-(* Applying a permutation and then the original order gives the original table back:
-   ids, order, matrix, metadata, type (equality of the whole content record). *)
+(* Applying a permutation and then the original order gives the original table back: ids, order,
+   matrix, metadata, type - equality of the whole content record, for constructor-normal metadata;
+   in general the table as the constructor normalises it ([copy t]). *)
 Theorem sort_order_inverse : forall order a t t',
-  wf t -> Permutation order (ids a t) -> sort_order order a t = ROk t' ->
+  wf t -> normal t -> Permutation order (ids a t) -> sort_order order a t = ROk t' ->
   sort_order (ids a t) a t' = ROk t.
-Proof. exact sort_order_back. Qed.
+Proof. exact sort_order_back_normal. Qed.
 Print Assumptions sort_order_inverse.
+
+Theorem sort_order_inverse_any : forall order a t t',
+  wf t -> Permutation order (ids a t) -> sort_order order a t = ROk t' ->
+  sort_order (ids a t) a t' = ROk (copy t).
+Proof. exact sort_order_back. Qed.
+Print Assumptions sort_order_inverse_any.
 
 (* What the code does when [order] is not a permutation: an unknown id is refused
    (UnknownIDError), a repeated id is refused (TableException from the constructor's check),
@@ -41,11 +56,16 @@ Theorem sort_order_repeated_refused : forall order a t,
 Proof. exact sort_order_repeated. Qed.
 Print Assumptions sort_order_repeated_refused.
 
+(* ... the kept ids keep values and metadata; the axis ends up WITHOUT metadata exactly when the
+   metadata of every kept id is empty (the constructor's rule) *)
 Theorem sort_order_selects : forall order a t,
   wf t -> NoDup order -> (forall x, In x order -> In x (ids a t)) ->
   exists t', sort_order order a t = ROk t' /\ ids a t' = order /\
     (forall x y, In x order -> cell_ax a t' x y = cell_ax a t x y) /\
-    (forall x, In x order -> md_of a t' x = md_of a t x) /\ wf t'.
+    (forall x, In x order -> md_view a t' x = md_view a t x) /\
+    (forall x, md_view (other a) t' x = md_view (other a) t x) /\
+    (mds a t' = None <-> forall x, In x order -> md_view a t x = md_empty) /\
+    normal t' /\ wf t'.
 Proof. exact sort_order_select. Qed.
 Print Assumptions sort_order_selects.
 
@@ -56,40 +76,61 @@ Theorem sort_spec : forall sortf : list Z -> list Z,
   exists t', sort sortf a t = ROk t' /\
     ids a t' = sortf (ids a t) /\
     (forall o s, cell t' o s = cell t o s) /\
-    (forall x, md_of a t' x = md_of a t x) /\
-    ids (other a) t' = ids (other a) t /\ mds (other a) t' = mds (other a) t /\
-    ttype t' = ttype t /\ wf t'.
+    (forall b x, md_view b t' x = md_view b t x) /\
+    ids (other a) t' = ids (other a) t /\ mds (other a) t' = ctor_md (mds (other a) t) /\
+    ttype t' = ttype t /\ normal t' /\ wf t'.
 Proof. exact sort_perm. Qed.
 Print Assumptions sort_spec.
 
-(* ---- transpose ---- *)
+(* ---- transpose (transpose_c = Model/Table.v transpose_t through the constructor) ---- *)
+Theorem transpose_spec : forall t, wf t ->
+  oids (transpose_c t) = sids t /\ sids (transpose_c t) = oids t /\
+  (forall o s, cell (transpose_c t) s o = cell t o s) /\
+  (forall b x, md_view b (transpose_c t) x = md_view (other b) t x) /\
+  omd (transpose_c t) = ctor_md (smd t) /\ smd (transpose_c t) = ctor_md (omd t) /\
+  normal (transpose_c t) /\ wf (transpose_c t).
+Proof. exact transpose_c_spec. Qed.
+Print Assumptions transpose_spec.
+
 Theorem transpose_keeps_cells : forall t o s, wf t -> cell (transpose_t t) s o = cell t o s.
 Proof. exact transpose_cell. Qed.
 Print Assumptions transpose_keeps_cells.
 
-Theorem transpose_swaps_axes : forall a t,
-  ids a (transpose_t t) = ids (other a) t /\ mds a (transpose_t t) = mds (other a) t /\
-  (forall x, md_of a (transpose_t t) x = md_of (other a) t x).
-Proof. exact transpose_swaps. Qed.
-Print Assumptions transpose_swaps_axes.
-
-(* transposing twice restores ids, order, values and metadata (the type is dropped by the code's
-   transpose and is not promised by the property) *)
+(* transposing twice restores ids, order, values and metadata (as the constructor normalises it: for
+   normal metadata, exactly); the type is dropped by the code's transpose and not promised *)
 Theorem transpose_involutive : forall t, wf t ->
-  let t2 := transpose_t (transpose_t t) in
-  oids t2 = oids t /\ sids t2 = sids t /\ mat t2 = mat t /\ omd t2 = omd t /\ smd t2 = smd t /\
-  (forall o s, cell t2 o s = cell t o s).
+  let t2 := transpose_c (transpose_c t) in
+  oids t2 = oids t /\ sids t2 = sids t /\ mat t2 = mat t /\ omd t2 = ctor_md (omd t) /\ smd t2 = ctor_md (smd t) /\
+  (forall o s, cell t2 o s = cell t o s) /\ (forall b x, md_view b t2 x = md_view b t x).
 Proof. exact transpose_twice. Qed.
 Print Assumptions transpose_involutive.
 
-Theorem transpose_coherent : forall t, wf t -> wf (transpose_t t).
-Proof. exact wf_transpose. Qed.
-Print Assumptions transpose_coherent.
-
 (* ---- copy ---- *)
-Theorem copy_eq : forall t, copy t = t.
+Theorem copy_eq : forall t, normal t -> copy t = t.
 Proof. exact copy_id. Qed.
 Print Assumptions copy_eq.
+
+Theorem copy_keeps_content : forall t,
+  oids (copy t) = oids t /\ sids (copy t) = sids t /\ mat (copy t) = mat t /\ ttype (copy t) = ttype t /\
+  (forall o s, cell (copy t) o s = cell t o s) /\ (forall b x, md_view b (copy t) x = md_view b t x) /\
+  omd (copy t) = ctor_md (omd t) /\ smd (copy t) = ctor_md (smd t).
+Proof. exact copy_content_same. Qed.
+Print Assumptions copy_keeps_content.
+
+(* ---- constructor-normal metadata is kept by every operation of this model ---- *)
+Theorem sort_order_keeps_normal : forall order a t t', sort_order order a t = ROk t' -> normal t'.
+Proof. exact sort_order_normal. Qed.
+Print Assumptions sort_order_keeps_normal.
+Theorem update_ids_keeps_normal : forall m a strict inplace t t',
+  normal t -> update_ids m a strict inplace t = ROk t' -> normal t'.
+Proof. exact update_ids_normal. Qed.
+Print Assumptions update_ids_keeps_normal.
+Theorem align_to_keeps_normal : forall other_t m t t', normal t -> align_to other_t m t = ROk t' -> normal t'.
+Proof. exact align_to_normal. Qed.
+Print Assumptions align_to_keeps_normal.
+Theorem copy_is_normal : forall t, normal (copy t).
+Proof. exact copy_normal. Qed.
+Print Assumptions copy_is_normal.
 
 (* ---- update_ids ---- *)
 (* A renaming that is injective on the ids of the axis (and, with strict, total on them):
@@ -103,8 +144,10 @@ Theorem update_ids_spec : forall m a strict inplace t,
   exists t', update_ids m a strict inplace t = ROk t' /\
     ids a t' = map (rename m) (ids a t) /\
     (forall x y, In x (ids a t) -> cell_ax a t' (rename m x) y = cell_ax a t x y) /\
-    (forall x, In x (ids a t) -> md_of a t' (rename m x) = md_of a t x) /\
-    ids (other a) t' = ids (other a) t /\ mds a t' = mds a t /\ mds (other a) t' = mds (other a) t /\
+    (forall x, In x (ids a t) -> md_view a t' (rename m x) = md_view a t x) /\
+    (forall x, md_view (other a) t' x = md_view (other a) t x) /\
+    ids (other a) t' = ids (other a) t /\
+    (forall b, mds b t' = if inplace then mds b t else ctor_md (mds b t)) /\
     mat t' = mat t /\ ttype t' = ttype t /\ wf t'.
 Proof. exact update_ids_injective. Qed.
 Print Assumptions update_ids_spec.
@@ -126,21 +169,29 @@ Theorem update_ids_partial : forall m a inplace t t',
   wf t -> (forall x y, In x (ids a t) -> In y (ids a t) -> rename m x = rename m y -> x = y) ->
   update_ids m a false inplace t = ROk t' ->
   forall x, In x (ids a t) -> mapped m x = false ->
-    In x (ids a t') /\ (forall y, cell_ax a t' x y = cell_ax a t x y) /\ md_of a t' x = md_of a t x.
+    In x (ids a t') /\ (forall y, cell_ax a t' x y = cell_ax a t x y) /\ md_view a t' x = md_view a t x.
 Proof. exact update_ids_unmapped_kept. Qed.
 Print Assumptions update_ids_partial.
 
-(* the partial renaming that renames nothing is the identity *)
-Theorem update_ids_empty_map : forall a inplace t, wf t -> update_ids [] a false inplace t = ROk t.
+(* the partial renaming that renames nothing gives the receiver itself / its copy *)
+Theorem update_ids_empty_map : forall a inplace t,
+  wf t -> update_ids [] a false inplace t = ROk (if inplace then t else copy t).
 Proof. exact update_ids_nothing. Qed.
 Print Assumptions update_ids_empty_map.
 
 (* the in-place variant (duplicates refused before the receiver is touched) and the copying
-   variant (duplicates refused by errcheck on the copy) have the same outcome on every input *)
+   variant (duplicates refused by errcheck on the copy): same outcome on every table with
+   constructor-normal metadata; in general the copying variant returns the copy of what the in-place
+   variant leaves, with the same refusals *)
 Theorem update_ids_inplace_equiv : forall m a strict t,
-  update_ids m a strict true t = update_ids m a strict false t.
+  normal t -> update_ids m a strict true t = update_ids m a strict false t.
 Proof. exact update_ids_inplace_same. Qed.
 Print Assumptions update_ids_inplace_equiv.
+
+Theorem update_ids_noninplace_is_copy : forall m a strict t,
+  update_ids m a strict false t = rmap copy (update_ids m a strict true t).
+Proof. exact update_ids_new_is_copy. Qed.
+Print Assumptions update_ids_noninplace_is_copy.
 
 (* ---- align_to ---- *)
 (* When the requested axes are alignable (equal id sets): each aligned axis takes exactly the
@@ -151,8 +202,8 @@ Theorem align_to_spec : forall other_t m t,
   exists t', align_to other_t m t = ROk t' /\
     (forall a, ids a t' = if aligned m a t other_t then ids a other_t else ids a t) /\
     (forall o s, cell t' o s = cell t o s) /\
-    (forall a x, md_of a t' x = md_of a t x) /\
-    ttype t' = ttype t /\ wf t'.
+    (forall a x, md_view a t' x = md_view a t x) /\
+    ttype t' = ttype t /\ normal t' /\ wf t'.
 Proof. exact align_to_ok. Qed.
 Print Assumptions align_to_spec.
 
@@ -167,6 +218,16 @@ Definition ex_t : table :=
   mkT [10;20;30]%Z [1;2;3;4]%Z [[5;0;0;7];[0;0;0;0];[0;2;0;9]]%Z
       (Some [I 1; I 2; I 3]%Z) (Some [I 11; I 12; I 13; I 14]%Z) 1%Z.
 Example ex_wf : wf ex_t. Proof. apply wfb_wf. vm_compute. reflexivity. Qed.
+Example ex_normal : normal ex_t. Proof. split; vm_compute; reflexivity. Qed.
+(* partly empty metadata: selecting only the id whose metadata is empty leaves the axis without metadata *)
+Definition ex_partly : table :=
+  mkT [10;20]%Z [1;2]%Z [[5;6];[7;8]]%Z None (Some [md_empty; L [I 6; L [L [L [I 107]; L [I 4; L [I 118]]]]]]%Z) 0%Z.
+Example ex_partly_ok : wf ex_partly /\ normal ex_partly.
+Proof. split; [apply wfb_wf; vm_compute; reflexivity|split; vm_compute; reflexivity]. Qed.
+Example ex_select_empty_md :
+  (exists t', sort_order [1]%Z Samp ex_partly = ROk t' /\ smd t' = None /\ mat t' = [[5];[7]]%Z) /\
+  (exists t', sort_order [2;1]%Z Samp ex_partly = ROk t' /\ smd t' = Some [L [I 6; L [L [L [I 107]; L [I 4; L [I 118]]]]]; md_empty]%Z).
+Proof. split; eexists; vm_compute; repeat split; reflexivity. Qed.
 
 Example ex_perm : Permutation [30;10;20]%Z (ids Obs ex_t).
 Proof. apply perm_by_compute; vm_compute; reflexivity. Qed.
